@@ -276,7 +276,8 @@ func (r *run) bootstrapTxs() []*transaction.Transaction {
 			tx.Nonce = r.prod.nonce
 			tx.ValidUntilBlock = r.P.BC.BlockHeight() + 1
 			if r.plan.Net != nil {
-				tx.ValidUntilBlock += 8
+				// (not beyond the validity window: with a small MaxTraceableBlocks the increment is small too)
+				tx.ValidUntilBlock = r.P.BC.BlockHeight() + min(9, r.P.BC.GetMaxValidUntilBlockIncrement())
 			}
 			r.prod.finishTx(tx, []neotest.Signer{v})
 			txs = append(txs, tx)
